@@ -24,12 +24,14 @@ def ann(kind, target):
 
 
 class Topology:
-    def __init__(self, n, edges, nested=False, flavour="dataclass", tag="", payload=True):
-        """edges: list of (i, j, kind)."""
+    def __init__(self, n, edges, nested=False, flavour="dataclass", tag="", payload=True, other=None, foreign_edges=()):
+        """edges: list of (i, j, kind). `other`: an already built Topology whose (same-named) classes are reached through
+        foreign_edges [(i, j, kind)] as `<other module>.Cj`."""
         _COUNTER[0] += 1
         self.n, self.edges, self.nested, self.flavour, self.payload = n, edges, nested, flavour, payload
         self.name = f"vtopo_{_COUNTER[0]}_{tag}"
         self.module = None
+        self.other, self.foreign_edges = other, list(foreign_edges)
 
     def cname(self, i):
         return f"Outer.C{i}" if self.nested else f"C{i}"
@@ -37,6 +39,8 @@ class Topology:
     @property
     def source(self):
         lines = ["from __future__ import annotations", "import dataclasses, typing", ""]
+        if self.other is not None:
+            lines.insert(2, f"import {self.other.name}")
         ind = "    " if self.nested else ""
         if self.nested:
             lines.append("class Outer:")
@@ -54,6 +58,9 @@ class Topology:
             for (a, b, kind) in self.edges:
                 if a == i:
                     body.append(f"{ind}    e{b}_{kind}: {ann(kind, self.cname(b))}")
+            for (a, b, kind) in self.foreign_edges:
+                if a == i:
+                    body.append(f"{ind}    x{b}_{kind}: {ann(kind, self.other.name + '.' + self.other.cname(b))}")
             if not body:
                 body.append(f"{ind}    v: int")
             lines.extend(body)
